@@ -1,2 +1,15 @@
 import Sio.Props.C06
-#print axioms Sio.C06.placeholder_stub
+#print axioms Sio.C06.reachable_wf
+#print axioms Sio.C06.id_unique
+#print axioms Sio.C06.outstanding_unique
+#print axioms Sio.C06.id_increasing
+#print axioms Sio.C06.callback_only_on_matching_ack
+#print axioms Sio.C06.callback_only_from_frames
+#print axioms Sio.C06.popped
+#print axioms Sio.C06.foreign_ack_inert
+#print axioms Sio.C06.at_most_once
+#print axioms Sio.C06.none_after_disconnect
+#print axioms Sio.C06.none_after_disconnect_history
+#print axioms Sio.C06.call_result
+#print axioms Sio.C06.call_delivery_only_on_matching_ack
+#print axioms Sio.C06.call_needs_async
